@@ -126,6 +126,19 @@ add(property='C03', id='C03-backward-launch', status='fixed', commit='7f84765', 
                                                surf(R='inf', t=30.0, stop=True)], ap=('EPD', 6.0), fields=(0.0, 2.0)),
                 'rays': [[0.0, 0.0, 0.0], [0.5, 0.3, 0.4], [1.0, -0.5, 0.5], [1.0, 0.0, 1.0]], 'wl': 0})
 
+add(property='C05', id='C05-parabola-cancellation', status='open', clause='chief_y_quadratic',
+    what='StandardGeometry.distance solves the conic quadratic as (-b +- sqrt(b^2-4ac))/(2a); for |1+k| << 1 and '
+         'near-axial rays a -> 0 and the root suffers catastrophic cancellation: ray heights on a paraboloid (k=-1) are '
+         'wrong by ~1e-10 mm at field fraction 1e-4 and the error grows like 1/eps^2, so real rays do not converge '
+         'quadratically to the paraxial ray; the stable-root repair changes the value pinned by '
+         'tests/test_operand.py::TestRayOperand::test_opd_diff_on_axis (which pins this noise for the Hubble sample), '
+         'so it is recorded, not repaired',
+    region='lens contains a standard conic surface with |1+k| < 0.05',
+    weakened_relation='|delta(eps)| <= 4 K eps^2 + floor + 1e-12 max(L,|R|max)/eps^2',
+    reproducer={'spec': spec([surf(R=12.0, t=3.455728090000841, mat=glass(1.5214), stop=True), surf(R='inf', t=0.36),
+                              surf(R=10.585374853750517, k=-1.0, t=3.5284582845835057, mat=glass(1.5214))],
+                             ap=('EPD', 16.0), fields=(0.0, 1.0), img=glass(1.5214))})
+
 if __name__ == '__main__':
     json.dump({'findings': F}, open(os.path.join(HERE, 'known_findings.json'), 'w'), indent=1)
     print(len(F), 'findings written')
